@@ -116,7 +116,10 @@ macro_rules! gen_c01 {
 macro_rules! gen_c02 {
     ($cs:ident, $acc:expr) => {{
         let acc: &mut Acc = $acc;
-        let pairs: Vec<(&[u8], &[u8])> = vec![(b"password", b"passwore"), (b"password", b"passwor"), (b"password", b"password\0"), (b"", b"\0"), (b"Password", b"password"), (b"pw ", b"pw")];
+        let long_a = vec![0x61u8; 65535];
+        let mut long_b = long_a.clone(); long_b[65534] ^= 1;
+        let pairs: Vec<(&[u8], &[u8])> = vec![(b"password", b"passwore"), (b"password", b"passwor"), (b"password", b"password\0"), (b"", b"\0"), (b"Password", b"password"), (b"pw ", b"pw"),
+            (&long_a, &long_b), (&long_a, &long_a[..65534]), (&long_a[..65534], &long_a)];
         for (i, (good, bad)) in pairs.iter().enumerate() {
             let mut rng = StdRng::seed_from_u64(2000 + i as u64);
             acc.tried += 1;
@@ -283,6 +286,9 @@ macro_rules! gen_c08 {
             let elen = <<<$cs as CipherSuite>::OprfCs as voprf_cs::Cs>::G as voprf_cs::Gl>::LEN;
             if rb[..elen] != fb[..elen] { acc.hit(stringify!($cs), "fake evaluation differs from the real per-identifier evaluation", json!({})); }
             if fb[elen..] == fb2[elen..] { acc.hit(stringify!($cs), "fake responses repeat", json!({})); }
+            let (fs1, fs2) = (fake.state.serialize(), fake2.state.serialize());
+            if fs1 == fs2 { acc.hit(stringify!($cs), "pending server states of two fake attempts are identical", json!({"state": hx(&fs1)})); }
+            if fs1.iter().all(|b| *b == 0) { acc.hit(stringify!($cs), "pending server state of a fake attempt is constant (all zero)", json!({})); }
             let st = ClientLogin::<$cs>::deserialize(&cb)?;
             match st.finish(p.pw, fake.message, ClientLoginFinishParameters::default()) {
                 Err(ProtocolError::InvalidLoginError) => {}
@@ -454,16 +460,170 @@ macro_rules! gen_c13 {
     }};
 }
 
+/// C14 / C17: determinism in the tape, freshness of every random value, independence from the blind
+macro_rules! gen_c17 {
+    ($cs:ident, $acc:expr) => {{
+        let acc: &mut Acc = $acc;
+        let p = Params { pw: b"pw", cred: b"id", idu: None, ids: None, ctx: None };
+        let run = |seed: u64| -> Result<Vec<Vec<u8>>, ProtocolError> {
+            let mut rng = StdRng::seed_from_u64(seed);
+            let setup = ServerSetup::<$cs>::new(&mut rng);
+            let c = ClientRegistration::<$cs>::start(&mut rng, p.pw)?;
+            let req = c.message.serialize().to_vec();
+            let s = ServerRegistration::<$cs>::start(&setup, c.message, p.cred)?;
+            let f = c.state.finish(&mut rng, p.pw, s.message, ClientRegistrationFinishParameters::default())?;
+            let upl = f.message.serialize().to_vec();
+            let file = ServerRegistration::<$cs>::finish(f.message);
+            let cl = ClientLogin::<$cs>::start(&mut rng, p.pw)?;
+            let creq = cl.message.serialize().to_vec();
+            let sl = ServerLogin::<$cs>::start(&mut rng, &setup, Some(file), cl.message, p.cred, ServerLoginStartParameters::default())?;
+            let cresp = sl.message.serialize().to_vec();
+            Ok(vec![setup.serialize().to_vec(), req, upl, creq, cresp])
+        };
+        acc.tried += 3;
+        match (run(17), run(17), run(18)) {
+            (Ok(a), Ok(b), Ok(c)) => {
+                if a != b { acc.hit(stringify!($cs), "identical tapes give different outputs (hidden entropy source)", json!({})); }
+                let names = ["server setup", "registration request (blind)", "registration upload (envelope nonce)", "credential request (blind, client nonce, ephemeral key)", "credential response (masking nonce, server nonce, ephemeral key)"];
+                for i in 0..5 { if a[i] == c[i] { acc.hit(stringify!($cs), "a value meant to be random does not vary with the tape", json!({"message": names[i], "bytes": hx(&a[i])})); } }
+            }
+            (x, _, _) => acc.hit(stringify!($cs), "honest run failed", json!({"error": format!("{:?}", x.err())})),
+        }
+        // same password, same server, two registrations on independent tapes: different requests, same masking key
+        let r = (|| -> Result<(), ProtocolError> {
+            let mut rng = StdRng::seed_from_u64(1700);
+            let setup = ServerSetup::<$cs>::new(&mut rng);
+            let mut reqs = vec![]; let mut mks = vec![];
+            for seed in [1u64, 2, 3] {
+                let mut r2 = StdRng::seed_from_u64(seed);
+                let c = ClientRegistration::<$cs>::start(&mut r2, p.pw)?;
+                reqs.push(c.message.serialize().to_vec());
+                let s = ServerRegistration::<$cs>::start(&setup, c.message, p.cred)?;
+                let f = c.state.finish(&mut r2, p.pw, s.message, ClientRegistrationFinishParameters::default())?;
+                let u = f.message.serialize().to_vec();
+                let npk = <<$cs as CipherSuite>::KeGroup as opaque_ke::key_exchange::group::KeGroup>::PkLen::to_usize();
+                let nh = (u.len() - npk - 32) / 2;
+                mks.push(u[npk..npk + nh].to_vec());
+            }
+            acc.tried += 3;
+            if reqs[0] == reqs[1] || reqs[1] == reqs[2] { acc.hit(stringify!($cs), "registration requests for the same password on independent tapes are identical (blind not fresh)", json!({"request": hx(&reqs[0])})); }
+            if mks[0] != mks[1] || mks[1] != mks[2] { acc.hit(stringify!($cs), "masking key depends on the blinding randomness", json!({})); }
+            // another credential identifier / another server seed / another password: different masking key
+            let mut r3 = StdRng::seed_from_u64(9);
+            let c = ClientRegistration::<$cs>::start(&mut r3, p.pw)?;
+            let s = ServerRegistration::<$cs>::start(&setup, c.message, b"id-other")?;
+            let u = c.state.finish(&mut r3, p.pw, s.message, ClientRegistrationFinishParameters::default())?.message.serialize().to_vec();
+            let npk = <<$cs as CipherSuite>::KeGroup as opaque_ke::key_exchange::group::KeGroup>::PkLen::to_usize();
+            let nh = (u.len() - npk - 32) / 2;
+            acc.tried += 1;
+            if u[npk..npk + nh] == mks[0][..] { acc.hit(stringify!($cs), "OPRF key ignores the credential identifier", json!({})); }
+            Ok(())
+        })();
+        if let Err(e) = r { acc.hit(stringify!($cs), "setup failed", json!({"error": format!("{:?}", e)})); }
+    }};
+}
+/// C16: export key stable across logins / contexts, new per registration, and no secret verbatim in any transmitted or stored bytes
+macro_rules! gen_c16 {
+    ($cs:ident, $acc:expr) => {{
+        let acc: &mut Acc = $acc;
+        let pw: &[u8] = b"a password of more than sixteen bytes";
+        let r = (|| -> Result<(), ProtocolError> {
+            let mut rng = StdRng::seed_from_u64(16000);
+            let p = Params { pw, cred: b"id", idu: None, ids: None, ctx: None };
+            let (setup, file, export, _k) = register!($cs, &mut rng, p);
+            let (_s2, _f2, export2, _k2) = register!($cs, &mut rng, p);
+            acc.tried += 1;
+            if export == export2 { acc.hit(stringify!($cs), "a new registration with the same password yields the same export key", json!({})); }
+            let mut wire: Vec<u8> = file.serialize().to_vec();
+            let mut secrets: Vec<Vec<u8>> = vec![pw.to_vec(), export.to_vec()];
+            for (i, ctx) in [None, Some(&b"ctx-a"[..]), Some(&b"ctx-b"[..])].iter().enumerate() {
+                let pp = Params { ctx: *ctx, ..p.clone() };
+                let c = ClientLogin::<$cs>::start(&mut rng, pw)?;
+                wire.extend_from_slice(&c.message.serialize());
+                let s = ServerLogin::<$cs>::start(&mut rng, &setup, Some(file.clone()), c.message, p.cred, ServerLoginStartParameters { context: pp.ctx, identifiers: Identifiers::default() })?;
+                wire.extend_from_slice(&s.message.serialize());
+                let cf = c.state.finish(pw, s.message, ClientLoginFinishParameters::new(pp.ctx, Identifiers::default(), None))?;
+                wire.extend_from_slice(&cf.message.serialize());
+                acc.tried += 1;
+                if cf.export_key != export { acc.hit(stringify!($cs), "login export key differs from the registration's", json!({"login": i})); }
+                secrets.push(cf.session_key.to_vec());
+            }
+            for sec in secrets { if sec.len() >= 16 && wire.windows(sec.len()).any(|w| w == &sec[..]) { acc.hit(stringify!($cs), "a secret appears verbatim in transmitted / stored bytes", json!({"secret_len": sec.len()})); } }
+            Ok(())
+        })();
+        if let Err(e) = r { acc.hit(stringify!($cs), "honest run failed", json!({"error": format!("{:?}", e)})); }
+    }};
+}
+/// C07: two users, concurrent sessions, every cross delivery
+macro_rules! gen_c07 {
+    ($cs:ident, $acc:expr) => {{
+        let acc: &mut Acc = $acc;
+        let r = (|| -> Result<(), ProtocolError> {
+            let mut rng = StdRng::seed_from_u64(7000);
+            let pa = Params { pw: b"pw-a", cred: b"alice", idu: None, ids: None, ctx: None };
+            let pb = Params { pw: b"pw-a", cred: b"bob", idu: None, ids: None, ctx: None };   // bob shares alice's password
+            let setup = ServerSetup::<$cs>::new(&mut rng);
+            let mut files = vec![];
+            for p in [&pa, &pb] {
+                let c = ClientRegistration::<$cs>::start(&mut rng, p.pw)?;
+                let s = ServerRegistration::<$cs>::start(&setup, c.message, p.cred)?;
+                let f = c.state.finish(&mut rng, p.pw, s.message, ClientRegistrationFinishParameters::default())?;
+                files.push(ServerRegistration::<$cs>::finish(f.message));
+            }
+            // four client sessions: alice x2, bob, alice with a wrong password
+            let users: Vec<(&[u8], usize, &[u8])> = vec![(b"pw-a", 0, b"alice"), (b"pw-a", 0, b"alice"), (b"pw-a", 1, b"bob"), (b"wrong", 0, b"alice")];
+            let mut cstates = vec![]; let mut creqs = vec![];
+            for (pw, _, _) in users.iter() { let c = ClientLogin::<$cs>::start(&mut rng, pw)?; cstates.push(c.state.serialize().to_vec()); creqs.push(c.message); }
+            // every (request, record) server session
+            let mut sess = vec![];
+            for (ri, req) in creqs.iter().enumerate() { for (fi, cred) in [(0usize, &b"alice"[..]), (1, &b"bob"[..])] {
+                let s = ServerLogin::<$cs>::start(&mut rng, &setup, Some(files[fi].clone()), req.clone(), cred, ServerLoginStartParameters::default())?;
+                sess.push((ri, fi, s.message.serialize().to_vec(), s.state.serialize().to_vec()));
+            } }
+            let mut keys: Vec<Vec<u8>> = vec![];
+            for (ci, (pw, fi, _)) in users.iter().enumerate() { for (ri, sfi, resp, sstate) in sess.iter() {
+                acc.tried += 1;
+                let st = ClientLogin::<$cs>::deserialize(&cstates[ci])?;
+                let out = st.finish(pw, CredentialResponse::<$cs>::deserialize(resp)?, ClientLoginFinishParameters::default());
+                // a matched conversation: the server session answered THIS client's request, under a record whose password the client knows
+                // (bob shares alice's password, so either record completes for a client holding that password)
+                let matched = *ri == ci && ci != 3; let _ = (fi, sfi);
+                match out {
+                    Ok(cf) => {
+                        if !matched { acc.hit(stringify!($cs), "client accepted a response of another session / user", json!({"client": ci, "request": ri, "record": sfi})); }
+                        let sf = ServerLogin::<$cs>::deserialize(sstate)?.finish(cf.message.clone());
+                        match sf { Ok(k) => { if k.session_key != cf.session_key { acc.hit(stringify!($cs), "keys differ within a completed session", json!({})); } keys.push(cf.session_key.to_vec()); }
+                                   Err(_) => acc.hit(stringify!($cs), "matched conversation not completed by the server", json!({})) }
+                        // the finalization must not complete any OTHER pending server session
+                        for (ri2, sfi2, _r2, sstate2) in sess.iter() { if (ri2, sfi2) != (ri, sfi) {
+                            acc.tried += 1;
+                            if ServerLogin::<$cs>::deserialize(sstate2)?.finish(cf.message.clone()).is_ok() { acc.hit(stringify!($cs), "a finalization completed another pending server session", json!({})); }
+                        } }
+                    }
+                    Err(_) => if matched { acc.hit(stringify!($cs), "matched conversation rejected by the client", json!({"client": ci})); },
+                }
+            } }
+            for i in 0..keys.len() { for j in 0..i { if keys[i] == keys[j] { acc.hit(stringify!($cs), "two completed sessions share a session key", json!({})); } } }
+            Ok(())
+        })();
+        if let Err(e) = r { acc.hit(stringify!($cs), "setup failed", json!({"error": format!("{:?}", e)})); }
+    }};
+}
+
 fn run(gen: &str) -> Value {
     let mut acc = Acc { tried: 0, found: vec![] };
     match gen {
-        "c01" | "c16" | "c09" | "c17" | "c14" | "c15" | "c18" => { all_suites!(gen_c01, &mut acc); }
+        "c01" | "c09" => { all_suites!(gen_c01, &mut acc); }
+        "c14" | "c17" => { all_suites!(gen_c17, &mut acc); }
+        "c16" => { all_suites!(gen_c16, &mut acc); }
+        "c15" => { ksf_probe(&mut acc); }
+        "c18" => { external_key_probe(&mut acc); external_key_faults(&mut acc); }
         "c02" => { all_suites!(gen_c02, &mut acc); }
         "c03" => { all_suites!(gen_c03, &mut acc); }
         "c04" => { all_suites!(gen_c04, &mut acc); }
         "c05" => { all_suites!(gen_c05, &mut acc); }
         "c06" => { all_suites!(gen_c06, &mut acc); }
-        "c07" => { all_suites!(gen_c03, &mut acc); all_suites!(gen_c04, &mut acc); }
+        "c07" => { all_suites!(gen_c07, &mut acc); }
         "c08" => { all_suites!(gen_c08, &mut acc); }
         "c10" => { all_suites!(gen_c10, &mut acc); }
         "c12" => { all_suites!(gen_c12, &mut acc); }
@@ -544,14 +704,18 @@ mod extkey {
     #[derive(Clone)]
     pub struct Handle(pub u64);
     pub static STORE: std::sync::Mutex<Vec<Vec<u8>>> = std::sync::Mutex::new(Vec::new());
+    thread_local! { pub static CALLS: std::cell::Cell<u32> = std::cell::Cell::new(0); pub static FAIL_AT: std::cell::Cell<u32> = std::cell::Cell::new(0); }
+    fn tick() -> bool { let n = CALLS.with(|c| { c.set(c.get() + 1); c.get() }); FAIL_AT.with(|f| f.get()) == n }
     impl SecretKey<opaque_ke::Ristretto255> for Handle {
         type Error = String;
         type Len = U8;
         fn diffie_hellman(&self, pk: PublicKey<opaque_ke::Ristretto255>) -> Result<GenericArray<u8, <opaque_ke::Ristretto255 as KeGroup>::PkLen>, InternalError<String>> {
+            if tick() { return Err(InternalError::Custom("hsm failure in diffie_hellman".into())); }
             let sk = STORE.lock().unwrap()[self.0 as usize].clone();
             PrivateKey::<opaque_ke::Ristretto255>::deserialize(&sk).unwrap().diffie_hellman(pk).map_err(|_| InternalError::Custom("dh".into()))
         }
         fn public_key(&self) -> Result<PublicKey<opaque_ke::Ristretto255>, InternalError<String>> {
+            if tick() { return Err(InternalError::Custom("hsm failure in public_key".into())); }
             let sk = STORE.lock().unwrap()[self.0 as usize].clone();
             PrivateKey::<opaque_ke::Ristretto255>::deserialize(&sk).unwrap().public_key().map_err(|_| InternalError::Custom("pk".into()))
         }
@@ -562,6 +726,125 @@ mod extkey {
         }
     }
 }
+// ------------------------------------------------------------------------------------------------ key stretching (C15)
+mod toyksf {
+    use generic_array::{ArrayLength, GenericArray};
+    use opaque_ke::errors::InternalError;
+    use opaque_ke::ksf::Ksf;
+    use std::cell::Cell;
+    thread_local! { pub static CALLS: Cell<u32> = Cell::new(0); pub static FAIL_AT: Cell<u32> = Cell::new(0); }
+    /// a parameterised, non-identity stretching function that counts its calls and can be armed to fail at the n-th call
+    pub struct Toy(pub u8);
+    impl Default for Toy { fn default() -> Self { Toy(0x5a) } }
+    impl Ksf for Toy {
+        fn hash<L: ArrayLength<u8>>(&self, input: GenericArray<u8, L>) -> Result<GenericArray<u8, L>, InternalError> {
+            let n = CALLS.with(|c| { c.set(c.get() + 1); c.get() });
+            if FAIL_AT.with(|f| f.get()) == n { return Err(InternalError::KsfError); }
+            let mut out = input; for (i, b) in out.iter_mut().enumerate() { *b = b.wrapping_mul(3) ^ self.0 ^ (i as u8); }
+            Ok(out)
+        }
+    }
+}
+macro_rules! ksf_suite { ($name:ident, $oprf:ty, $ke:ty) => { pub struct $name; impl CipherSuite for $name { type OprfCs = $oprf; type KeGroup = $ke; type KeyExchange = TripleDh; type Ksf = toyksf::Toy; } }; }
+ksf_suite!(K_R_R, opaque_ke::Ristretto255, opaque_ke::Ristretto255);
+ksf_suite!(K_P256_X, p256::NistP256, opaque_ke::Curve25519);
+macro_rules! gen_c15 {
+    ($cs:ident, $acc:expr) => {{
+        let acc: &mut Acc = $acc;
+        use toyksf::{Toy, CALLS, FAIL_AT};
+        let d = Toy::default(); let other = Toy(0x11);
+        // (ksf at registration, ksf at login, must succeed)
+        let combos: Vec<(Option<&Toy>, Option<&Toy>, bool, &str)> = vec![(None, None, true, "absent / absent"), (None, Some(&d), true, "absent / explicit default"), (Some(&d), None, true, "explicit default / absent"),
+            (Some(&other), Some(&other), true, "equal non-default parameters"), (Some(&other), None, false, "different parameters"), (None, Some(&other), false, "different parameters"), (Some(&other), Some(&Toy(0x12)), false, "different parameters")];
+        for (i, (kr, kl, must, what)) in combos.iter().enumerate() {
+            acc.tried += 1;
+            FAIL_AT.with(|f| f.set(0));
+            let r = (|| -> Result<bool, ProtocolError> {
+                let mut rng = StdRng::seed_from_u64(15000 + i as u64);
+                let setup = ServerSetup::<$cs>::new(&mut rng);
+                let c = ClientRegistration::<$cs>::start(&mut rng, b"pw")?;
+                let s = ServerRegistration::<$cs>::start(&setup, c.message, b"id")?;
+                CALLS.with(|c| c.set(0));
+                let f = c.state.finish(&mut rng, b"pw", s.message, ClientRegistrationFinishParameters::new(Identifiers::default(), *kr))?;
+                if CALLS.with(|c| c.get()) != 1 { acc.hit(stringify!($cs), "KSF not evaluated exactly once in ClientRegistration::finish", json!({"calls": CALLS.with(|c| c.get()), "case": what})); }
+                let file = ServerRegistration::<$cs>::finish(f.message);
+                let cl = ClientLogin::<$cs>::start(&mut rng, b"pw")?;
+                let sl = ServerLogin::<$cs>::start(&mut rng, &setup, Some(file), cl.message, b"id", ServerLoginStartParameters::default())?;
+                CALLS.with(|c| c.set(0));
+                let out = cl.state.finish(b"pw", sl.message, ClientLoginFinishParameters::new(None, Identifiers::default(), *kl));
+                if CALLS.with(|c| c.get()) != 1 { acc.hit(stringify!($cs), "KSF not evaluated exactly once in ClientLogin::finish", json!({"calls": CALLS.with(|c| c.get()), "case": what})); }
+                Ok(out.is_ok())
+            })();
+            match r { Ok(ok) => if ok != *must { acc.hit(stringify!($cs), "KSF selection / binding", json!({"case": what, "login_succeeded": ok, "expected": must})); },
+                      Err(e) => acc.hit(stringify!($cs), "run failed", json!({"case": what, "error": format!("{:?}", e)})) }
+        }
+        // a failing KSF is returned as an error (registration finish and login finish)
+        for fail_in_login in [false, true] {
+            acc.tried += 1;
+            let r = (|| -> Result<(bool, bool), ProtocolError> {
+                let mut rng = StdRng::seed_from_u64(15500);
+                let setup = ServerSetup::<$cs>::new(&mut rng);
+                let c = ClientRegistration::<$cs>::start(&mut rng, b"pw")?;
+                let s = ServerRegistration::<$cs>::start(&setup, c.message, b"id")?;
+                CALLS.with(|c| c.set(0)); FAIL_AT.with(|f| f.set(if fail_in_login { 0 } else { 1 }));
+                let fr = c.state.finish(&mut rng, b"pw", s.message, ClientRegistrationFinishParameters::default());
+                if !fail_in_login { return Ok((matches!(fr, Err(ProtocolError::LibraryError(opaque_ke::errors::InternalError::KsfError))), true)); }
+                let file = ServerRegistration::<$cs>::finish(fr?.message);
+                let cl = ClientLogin::<$cs>::start(&mut rng, b"pw")?;
+                let sl = ServerLogin::<$cs>::start(&mut rng, &setup, Some(file), cl.message, b"id", ServerLoginStartParameters::default())?;
+                CALLS.with(|c| c.set(0)); FAIL_AT.with(|f| f.set(1));
+                let out = cl.state.finish(b"pw", sl.message, ClientLoginFinishParameters::default());
+                Ok((true, matches!(out, Err(ProtocolError::LibraryError(opaque_ke::errors::InternalError::KsfError)))))
+            })();
+            FAIL_AT.with(|f| f.set(0));
+            match r { Ok((a, b)) => if !(a && b) { acc.hit(stringify!($cs), "a failing KSF is not returned as Err(LibraryError(KsfError))", json!({"in_login": fail_in_login})); },
+                      Err(e) => acc.hit(stringify!($cs), "run failed", json!({"error": format!("{:?}", e)})) }
+        }
+    }};
+}
+fn ksf_probe(acc: &mut Acc) { gen_c15!(K_R_R, acc); gen_c15!(K_P256_X, acc); }
+
+/// C18: an external key that fails at the n-th interface call, for every n; equivalence with the direct-key server
+fn external_key_faults(acc: &mut Acc) {
+    use opaque_ke::keypair::{KeyPair, SecretKey};
+    let mut rng = StdRng::seed_from_u64(1800);
+    let inner = ServerSetup::<R_R>::new(&mut rng);
+    let idx = { let mut st = extkey::STORE.lock().unwrap(); st.push(inner.keypair().private().serialize().to_vec()); st.len() - 1 };
+    let kp = KeyPair::<opaque_ke::Ristretto255, extkey::Handle>::from_private_key(extkey::Handle(idx as u64)).unwrap();
+    // same tape for both setups: same seed and fake key
+    let direct = ServerSetup::<R_R>::new_with_key(&mut StdRng::seed_from_u64(1801), inner.keypair().clone());
+    let ext = ServerSetup::<R_R, extkey::Handle>::new_with_key(&mut StdRng::seed_from_u64(1801), kp);
+    let c = ClientRegistration::<R_R>::start(&mut rng, b"pw").unwrap();
+    let s1 = ServerRegistration::<R_R>::start(&direct, c.message.clone(), b"id").unwrap();
+    let s2 = ServerRegistration::<R_R>::start(&ext, c.message, b"id").unwrap();
+    acc.tried += 1;
+    if s1.message.serialize() != s2.message.serialize() { acc.hit("R_R+external key", "registration response differs from the direct-key server's", json!({})); }
+    let f = c.state.finish(&mut rng, b"pw", s1.message, ClientRegistrationFinishParameters::default()).unwrap();
+    let file = ServerRegistration::<R_R>::finish(f.message);
+    let cl = ClientLogin::<R_R>::start(&mut rng, b"pw").unwrap();
+    for pf in [Some(file.clone()), None] {
+        let a = ServerLogin::<R_R>::start(&mut StdRng::seed_from_u64(1802), &direct, pf.clone(), cl.message.clone(), b"id", ServerLoginStartParameters::default()).unwrap();
+        let b = ServerLogin::<R_R>::start(&mut StdRng::seed_from_u64(1802), &ext, pf.clone(), cl.message.clone(), b"id", ServerLoginStartParameters::default());
+        acc.tried += 1;
+        match b { Ok(b) => if a.message.serialize() != b.message.serialize() || a.state.serialize() != b.state.serialize() { acc.hit("R_R+external key", "login response / state differs from the direct-key server's", json!({"record": pf.is_some()})); },
+                  Err(e) => acc.hit("R_R+external key", "external-key server failed where the direct-key server succeeded", json!({"error": format!("{:?}", e)})) }
+        // fail at the n-th interface call
+        for n in 1..=2u32 {
+            acc.tried += 1;
+            extkey::FAIL_AT.with(|f| f.set(n)); extkey::CALLS.with(|c| c.set(0));
+            let r = std::panic::catch_unwind(std::panic::AssertUnwindSafe(|| ServerLogin::<R_R>::start(&mut StdRng::seed_from_u64(1803), &ext, pf.clone(), cl.message.clone(), b"id", ServerLoginStartParameters::default()).map(|_| ())));
+            extkey::FAIL_AT.with(|f| f.set(0));
+            match r {
+                Err(_) => acc.hit("R_R+external key", "PANIC when the external key failed", json!({"failing_call": n, "record": pf.is_some()})),
+                Ok(Ok(())) => acc.hit("R_R+external key", "a response was produced although the external key failed", json!({"failing_call": n})),
+                Ok(Err(ProtocolError::LibraryError(opaque_ke::errors::InternalError::Custom(_)))) => {}
+                Ok(Err(e)) => acc.hit("R_R+external key", "the external key's error was not returned to the caller", json!({"failing_call": n, "got": format!("{:?}", e)})),
+            }
+        }
+        if extkey::CALLS.with(|c| c.get()) > 2 { acc.hit("R_R+external key", "more interface calls than one public_key and one diffie_hellman", json!({})); }
+    }
+}
+
 fn external_key_probe(acc: &mut Acc) {
     use opaque_ke::keypair::{KeyPair, SecretKey};
     let mut rng = StdRng::seed_from_u64(18);
